@@ -27,7 +27,8 @@ ASSUMPTIONS = [
 ]
 REQUIRED = {"v2.meaning": {"quick": 3000, "thorough": 100000}, "v2.print_roundtrip": {"quick": 3000, "thorough": 100000},
             "v2.config_substitution": 100, "v2.empty_selects_all": 3, "v2.list_form": 300, "v2.wip_adds_wip_term": 100, "v2.config_file_tags": 100, "v2.list_form_default_protocol": 500, "v2.meaning_for_any_iterable_of_tags": 1000}
-REQUIRED_SEEN = {"tags_given_as": ["generator", "iter", "map", "tuple", "frozenset", "dict_keys", "reversed"], "default_protocol_list_shape": ["only_single_tags"], "config_list_shape": ["placeholder_after_plain_part", "other"], "config_file_kind": ["toml", "ini"],
+REQUIRED_SEEN = {"list_terms_shape": ["same_words_other_parentheses"], "console_encoding": ["cp1252", "latin-1", "cp850", "ascii", "utf-8"],
+                 "tags_given_as": ["generator", "iter", "map", "tuple", "frozenset", "dict_keys", "reversed"], "default_protocol_list_shape": ["only_single_tags"], "config_list_shape": ["placeholder_after_plain_part", "other"], "config_file_kind": ["toml", "ini"],
                  "config_file_mode": ["none", "plain", "placeholder", "placeholder_and_plain", "wip"]}
 EXHAUSTIVE = {"quick": True, "thorough": True}
 EXHAUSTIVE_SCOPE = "all binary and/or/not trees up to the leaf bound over the operand set, complete truth tables"
@@ -238,6 +239,76 @@ def check_default_protocol_lists(lab, mon, rng):
             mon.check("v2.list_form_default_protocol", False, dict(case=case, error=repr(ex)))
 
 
+def check_lookalike_terms(lab, mon, rng):
+    """Several --tags terms that consist of the same words and differ only in their parentheses are DIFFERENT terms."""
+    x, y, z = rng.sample(["a", "b", "a.b", "x-y", "k=v", "A"], 3)
+    L = lambda t: ["lit", t]
+    pairs = [("not %s or %s" % (x, y), ["or", ["not", L(x)], L(y)], "not (%s or %s)" % (x, y), ["not", ["or", L(x), L(y)]]),
+             ("%s and %s or %s" % (x, y, z), ["or", ["and", L(x), L(y)], L(z)], "%s and (%s or %s)" % (x, y, z), ["and", L(x), ["or", L(y), L(z)]]),
+             ("(%s or %s) and %s" % (x, y, z), ["and", ["or", L(x), L(y)], L(z)], "%s or %s and %s" % (x, y, z), ["or", L(x), ["and", L(y), L(z)]]),
+             ("not %s and %s" % (x, y), ["and", ["not", L(x)], L(y)], "not (%s and %s)" % (x, y), ["not", ["and", L(x), L(y)]])]
+    t1, a1, t2, a2 = rng.choice(pairs)
+    if rng.random() < 0.5:
+        t1, a1, t2, a2 = t2, a2, t1, a1
+    at = rng.random() < 0.5
+    texts = [t.replace(x, "@" + x, 1) if at else t for t in (t1, t2)]
+    ast = ["and", a1, a2]
+    want = T.truth_table(ast, SUBSETS)
+    case = {"kind": "list", "ast": ast, "text": texts}
+    mon.case(case, True)
+    try:
+        got, e = lab.table(texts)
+        mon.check("v2.list_form", got == want, lambda: dict(case=case, want=want, got=got, parsed=repr(e), note="terms with the same words, other parentheses"))
+    except Exception as ex:
+        mon.check("v2.list_form", False, dict(case=case, error=repr(ex)))
+    mon.seen("list_terms_shape", "same_words_other_parentheses")
+
+
+class _LegacyConsole(object):
+    """Stands in for sys.stdout on a console with a legacy 8-bit encoding."""
+    def __init__(self, encoding):
+        self.encoding = encoding
+        self.errors = "strict"
+
+    def write(self, s):
+        return len(s)
+
+    def flush(self):
+        pass
+
+    def isatty(self):
+        return False
+
+
+def check_print_on_legacy_console(lab, mon, rng):
+    """Printing preserves meaning whatever the console is: tag names outside the console's code page included."""
+    import sys
+    names = ["\u65e5\u672c", "wip_\u0436", "a", "\u03a9mega", "b"]
+    subs = list(T.subsets(names + ["ab", "xy"]))
+    ast = T.random_tree(rng, names, rng.choice([1, 2]))
+    text = T.render_v2(ast, rng, "full", rng.choice([True, False]))
+    want = T.truth_table(ast, subs)
+    enc = rng.choice(["cp1252", "latin-1", "cp850", "ascii", "utf-8"])
+    saved = sys.stdout
+    case = {"kind": "print-on-console", "ast": ast, "text": text, "console_encoding": enc}
+    mon.case(case, True)
+    try:
+        e = lab.make(text, lab.P.V2)
+        sys.stdout = _LegacyConsole(enc)
+        try:
+            printed = [str(e), e.to_string(), e.to_string(pretty=True), e.to_string(pretty=False)]
+        finally:
+            sys.stdout = saved
+        for pr in printed:
+            e2 = lab.make(pr, lab.P.V2)
+            got = T.truth_table_of(e2.check, subs)
+            mon.check("v2.print_roundtrip", got == want, lambda: dict(case=case, printed=pr, want=want, got=got))
+    except Exception as ex:
+        sys.stdout = saved
+        mon.check("v2.print_roundtrip", False, dict(case=case, error=repr(ex)))
+    mon.seen("console_encoding", enc)
+
+
 def check_config_files(lab, mon, rng):
     """Tags written into a configuration file (behave.ini / setup.cfg / pyproject.toml): without --tags they are the
     expression; with --tags the command line is the expression and {config.tags} in it stands for the file's tags."""
@@ -391,6 +462,8 @@ def run(spec, mon):
         check_config(lab, mon, c, r, rng, j % len(TEMPLATES), as_list=("multi" if j % 3 == 1 else (j % 3 == 0)))
         check_wip(lab, mon, rng)
         check_config_files(lab, mon, rng)
+        check_lookalike_terms(lab, mon, rng)
+        check_print_on_legacy_console(lab, mon, rng)
         for _ in range(3):
             check_default_protocol_lists(lab, mon, rng)
     if shard == 0:
